@@ -419,6 +419,9 @@ func doFormat(w io.Writer, obj Object, opt OutputOptions, needSep bool, depth in
 		return true, err
 
 	case Real:
+		if math.IsNaN(float64(x)) || math.IsInf(float64(x), 0) {
+			return false, errors.New("real number is not finite")
+		}
 		if needSep {
 			_, err := io.WriteString(w, " ")
 			if err != nil {
